@@ -186,6 +186,13 @@ def finding_key(v):
 
 def run_property(prop, tier, harnesses, level, explanation, assumptions, outside, functions_note="",
                  uses_uf=False, quick_deadline=600, thorough_deadline=3600, extra_cov=None, parallel=1):
+    # a harness stops exploring at its first violation (on a broken tree the remaining paths can be
+    # arbitrarily expensive: desynchronised streams, unbounded loops) - except for properties with
+    # listed known findings, where a new violation must not hide behind a known one
+    if not [k for k in known_findings() if k["property"] == prop]:
+        for h in harnesses:
+            if "-stop-on-violation" not in h.flags:
+                h.flags = h.flags + ["-stop-on-violation"]
     t0 = time.time()
     seed = int(os.environ.get("VERIF_SEED", "1"))
     ensure_engine()
